@@ -191,6 +191,8 @@ def run(ctx: Ctx) -> None:
     for i in range(nprog):
         p = progen.gen_program(rnd, rnd.randint(1, 3))
         srcs['gen_%d' % i] = p.src
+    import shapes
+    srcs.update(shapes.ALL)      # generic bases, static / class methods, properties, with / try, nested closures
     s2 = tsession.Session(srcs)
     for name in srcs:
         try:
